@@ -230,8 +230,11 @@ func (wd *world) checkNames(tr *ftransport, st *fstream, q *reqRec, closing bool
 			e.Violate("request_names", "%s stream %d: request (seq %d) for type %d lists %q; its last watcher was gone before this stream started (seq %d)", tr.name(), st.idx, q.seq, q.typ, n, lo)
 		}
 	}
-	if closing || !wd.lowestPriorityAlive(tr, lo, hi) {
-		return // a channel being released is unsubscribed name by name
+	if closing || tr.srv.idx != 0 || !wd.lowestPriorityAlive(tr, lo, hi) {
+		// a channel being released is unsubscribed name by name, and a
+		// fallback channel is subscribed name by name at an unobservable
+		// instant after its creation: only convergence is judged there
+		return
 	}
 	for _, n := range resNames {
 		if !have[n] && wd.watchedThroughout(q.typ, n, lo, hi) {
